@@ -251,6 +251,9 @@ const prelude = `(set-option :produce-models true)
 (declare-fun strat (Str Int) Int)
 (declare-fun strsub (Str Int Int) Str)
 (declare-fun strlt (Str Str) Bool)
+(declare-fun umul (Int Int) Int)
+(declare-fun udiv (Int Int) Int)
+(declare-fun umod (Int Int) Int)
 (declare-fun fref (Int Int) Int)
 (declare-fun eref (Int Int) Int)
 (define-fun tdiv ((a Int) (b Int)) Int (ite (>= a 0) (ite (> b 0) (div a b) (- (div a (- b)))) (ite (> b 0) (- (div (- a) b)) (div (- a) (- b)))))
